@@ -688,6 +688,19 @@ def eigvec_matrix_asymmetric(case):
     return False
 
 
+def has_degenerate_eigenspace(case):
+    """known-finding predicate (C06-F5b): mode 1 and some element has a non-zero eigenvalue of multiplicity >= 2
+    (eigenvalues closer than 1e-9).  quara groups eigenvalues with `==` on floats, so a degenerate eigenvalue that
+    rounding splits by one ulp is decohered in an arbitrary basis of its eigenspace instead of projected."""
+    if case.get("sub") != "mode1":
+        return False
+    for e in povm_matrices(case["povm"]):
+        groups, _, _ = _eig_groups(e)
+        if any(np.real(np.trace(p)) > 1.5 and lam > 1e-6 for lam, p in groups):
+            return True
+    return False
+
+
 @st.composite
 def _mode1_povm(draw, shape):
     d = _d(shape)
@@ -781,10 +794,17 @@ def check_instrument(case, ctx):
         for e in es:
             w, v = np.linalg.eigh(rm.herm(e))
             ks.append([(v * np.sqrt(np.clip(w, 0.0, None))) @ v.conj().T])
-        if any(float(w[-1]) < 1e-12 for w in eig):
-            # an identically-zero element is outside the quantified domain (rank-1 to full rank); scipy 1.18's
-            # sqrtm returns inf for the zero matrix, which is an environment fact and not judged here
-            ctx.skip("rank-0-element")
+        import warnings
+
+        from scipy.linalg import sqrtm
+
+        with warnings.catch_warnings():
+            warnings.simplefilter("ignore")
+            finite = all(bool(np.all(np.isfinite(sqrtm(e)))) for e in es)
+        if not finite:
+            # environment fact, not judged: scipy 1.18.1 sqrtm returns inf for some singular PSD inputs (the zero matrix,
+            # diag(0,1,0)); quara's mode 0 is defined through scipy.linalg.sqrtm
+            ctx.skip("scipy-sqrtm-nonfinite-on-singular-input")
             return
         tol = alg if lam_min >= 1e-3 else 1e-5
         ctx.label("rank-deficient" if lam_min < 1e-3 else "full-rank")
